@@ -390,7 +390,12 @@ def regular : PT → Scope → Bool
       | _, _, _ => false
   | .mapping _ body pm _ _ _, σ => regular body (.mapped σ pm)
   | .parallel _ body _, σ => regular body σ
-  | .atomicMulti _ subs _ _ _, σ => regularAll subs σ && sameDurations subs σ
+  | .atomicMulti _ subs dur _ _, σ => regularAll subs σ && sameDurations subs σ &&
+      (match dur with
+       | some de => (match σ.eval de, templateDurationFirst subs σ with
+          | .ok x, .ok y => x == y
+          | _, _ => false)
+       | none => true)
   | .arith _ body _ _ _, σ => regular body σ
   | .arithAtomic _ lhs _ rhs _, σ => regular lhs σ && regular rhs σ
   | .timeReversal _ body, σ => regular body σ
@@ -546,8 +551,8 @@ end
 /-! ## The fragment the theorems of `QP.Props.C07` cover -/
 
 mutual
-/-- constant, table, function (affine in `t`), sequence, repetition, iteration, mapping and time reversal (integral
-only: it does not implement the end values) templates that satisfy what
+/-- templates of all thirteen classes (function templates affine in `t`, scalar operands of arithmetic templates
+independent of `t`) that satisfy what
 the constructors of the real classes enforce: amplitude keys are distinct (a `dict`), all parts of a sequence
 define the same channels, a channel mapping is total on the body's channels and injective on the kept ones -/
 def supported : PT → Bool
@@ -563,7 +568,14 @@ def supported : PT → Bool
       !hasDup (body.definedChannels.filterMap (fun c => match cm'.lookup c with | some (some o) => some o | _ => none)) &&
       !hasDup body.definedChannels
   | .timeReversal _ body => supported body
-  | _ => false
+  | .parallel _ body over => supported body && !hasDup (over.map (·.1))
+  | .atomicMulti _ subs _ _ _ => supportedAll subs && !hasDup (PT.allChannels subs)
+  | .arith _ body _ scalar _ =>
+      supported body && !scalarTimeDependent scalar &&
+      (match scalar with
+       | .perChan m => !hasDup (m.map (·.1)) && m.all (fun x => body.definedChannels.contains x.1)
+       | .uniform _ => true)
+  | .arithAtomic _ lhs _ rhs _ => supported lhs && supported rhs
 def supportedAll : List PT → Bool
   | [] => true
   | p :: ps => supported p && supportedAll ps
